@@ -520,12 +520,41 @@ class InPlaceHistories(Family):
         n = 0
         flip = [0]
 
+        from bitcoin.core import ValidationError
+        from bitcoin.core.script import CScript
+        from bitcoin.core.scripteval import VerifyScript
+        spk_obj = CScript(spk)          # ONE scriptPubKey object for this history, first used by evaluations that stop half-way
+
+        def run(ss, i, fs):
+            try:
+                VerifyScript(CScript(ss), spk_obj, tx, i, flags=L.lib_flags(fs))
+                return ('ok',)
+            except ValidationError as e:
+                return ('fail', type(e).__name__)
+            except Exception as e:  # noqa
+                return ('EXC', '%s: %s' % (type(e).__name__, str(e)[:80]))
+
         def ver(i):
             flip[0] ^= 1
-            return L.run_lib_verify(sig_script, spk, P2SHF if (flip[0] or p2sh) else NONE, tx=tx, idx=i)
+            return run(sig_script, i, P2SHF if (flip[0] or p2sh) else NONE)
+        # evaluations of the same scriptPubKey object that cannot succeed come first: no scriptSig at all, a scriptSig of the
+        # right shape with a foreign signature (and, where the template names the key in the scriptSig, a foreign key)
+        fpub = EC.pubkey(99, True)
+        fsig = bytes(EC.der_encode(*EC.low_s(*EC.sign_with_nonce(99, digest, 4242)))) + bytes([ht])
+        aborting = [b'', mk_sig([fsig] * len(sigs))]
+        if name.startswith('p2pkh'):
+            aborting.append(push(fsig) + push(fpub))
+        for ab in aborting:
+            r = run(ab, idx, P2SHF)
+            n += 1
+            if r[0] != 'fail':
+                raise Viol('an input without a valid signature (%s, scriptSig %s) %s' % (what, ab.hex()[:40], 'is accepted' if r[0] == 'ok' else 'raised ' + r[1]), 'reject', r)
         r = ver(idx)
         if r[0] != 'ok':
-            raise Viol('signed input on a mutable transaction is rejected (%s)' % what, 'accept', r)
+            raise Viol('signed input on a mutable transaction is rejected after failed evaluations of the same scriptPubKey object (%s)' % what, 'accept', r)
+        r = run(mk_sig([fsig] * len(sigs)), idx, P2SHF)
+        if r[0] != 'fail':
+            raise Viol('a foreign signature is accepted after the genuine one was verified on the same scriptPubKey object (%s)' % what, 'reject', r)
         for ename, fn, _cls in field_edits(m, idx) + [(a, b, None) for a, b in structural_edits(m, idx)]:
             if ename == 'witness':
                 continue
